@@ -893,6 +893,7 @@ func rulesC14(c *Ctx) {
 		}
 	})
 	ruleNoSilent200(c, "R-C14-4", []string{"auth"}, nil, 2, 4)
+	ruleHeadersBeforeStatus(c, "R-C14-5", []string{"auth"}, 2)
 }
 
 // isCompound: &&, || and ! nodes (their operands are listed as atoms of their own).
